@@ -26,7 +26,8 @@ def handler(case):
         from relsad.utils import interpolate
         arr = [F(x) for x in case["arr"]]
         m = case["m"]
-        a = np.array([float(x) for x in arr])
+        # whole-numbered profiles may be given as integer arrays (numpy keeps the integer type)
+        a = np.array([int(x) for x in arr]) if case.get("int_dtype") and all(x.denominator == 1 for x in arr) else np.array([float(x) for x in arr])
         out = [float(x) for x in interpolate(a, np.arange(m))]
         ops = [f"prof interp {flist(arr)} {m}"]
         lo, hi = float(min(arr)), float(max(arr))
@@ -275,6 +276,13 @@ def gen(rng, n):
         else:
             arr = [dyadic(rng) for _ in range(L)]
         cases.append({"kind": "interp", "arr": [str(x) for x in arr], "m": m, "linear": lin})
+        if len(cases) % 5 == 0:
+            # whole megawatts, handed over as an integer array
+            ai = [F(rng.randint(0, 6)) for _ in range(L)]
+            if len(cases) % 10 == 0:
+                a0i, b0i = rng.randint(0, 3), rng.randint(1, 3)
+                ai = [F(a0i + b0i * j) for j in range(L)]
+            cases[-1] = {"kind": "interp", "arr": [str(x) for x in ai], "m": m, "linear": ([str(a0i), str(b0i)] if len(cases) % 10 == 0 else None), "int_dtype": True}
     for _ in range(n):
         ncat = rng.choice([0, 1, 1, 2, 3, 4]); L = rng.randint(1, 6)
         cats = [{"p": [str(rand_frac(rng, 0, 2)) for _ in range(L)], "q": [str(rand_frac(rng, 0, 1)) for _ in range(L)],
